@@ -288,7 +288,7 @@ func init() {
 			if p == nil {
 				return false, "no ast"
 			}
-			docText, _ := cs["doc"].(string)
+			_ = cs["doc"]
 			kind, _ := cs["relation"].(string)
 			text, _ := cs["relation_text"].(string)
 			env := impl.NewEnv()
@@ -297,7 +297,7 @@ func init() {
 				if r.kind != kind || c08Describe(&r) != text {
 					continue
 				}
-				ok, detail, _, _ := c08Eval(&r, decodeDoc(docText, modeFloat), func(p *gen.Path) impl.Func { return impl.Parse(gen.Render(p, nil).Text, &env.Cfg).F })
+				ok, detail, _, _ := c08Eval(&r, docOfCase(cs), func(p *gen.Path) impl.Func { return impl.Parse(gen.Render(p, nil).Text, &env.Cfg).F })
 				return !ok, detail
 			}
 			return false, "relation not found"
